@@ -250,6 +250,30 @@ def rule_r4(ctx):
                 return
         ctx.r.violation(rid, key_of(f, None, "missing-refusal::" + key), what + " is not refused", f.loc())
 
+    # the padding tests are meaningful only on the text as received: inside the Forwarded element loop nothing strips
+    # a pair / token / value except the operands of those tests themselves
+    def _has_padding_test(node):
+        for c in ast.walk(node):
+            if isinstance(c, ast.Compare) and len(c.ops) == 1 and isinstance(c.ops[0], (ast.NotEq, ast.Eq)):
+                l, r = norm(c.left), norm(c.comparators[0])
+                if l == r + ".strip()" or r == l + ".strip()":
+                    return True
+        return False
+    loops = [x for x in ast.walk(f.node) if isinstance(x, ast.For) and _has_padding_test(x)]
+    # the innermost loop(s) holding the padding tests: the loop over the pairs of one forwarded-element
+    inner = [x for x in loops if not any(y is not x and any(z is y for z in ast.walk(x)) for y in loops)]
+    for lp in inner:
+        cmp_operands = set()
+        for c in ast.walk(lp):
+            if isinstance(c, ast.Compare):
+                for o in [c.left] + list(c.comparators):
+                    for y in ast.walk(o):
+                        cmp_operands.add(id(y))
+        for c in ast.walk(lp):
+            if isinstance(c, ast.Call) and isinstance(c.func, ast.Attribute) and c.func.attr in ("strip", "lstrip", "rstrip") and not c.args and id(c) not in cmp_operands:
+                # strips applied to the whole header value before it is split into elements are outside this loop's body
+                if any(c is y for st in lp.body for y in ast.walk(st)):
+                    ctx.r.violation(rid, key_of(f, None, "pre-stripped::" + norm(c.func.value)[:30]), "%s removes padding before the padding tests run: a padded forwarded-pair is accepted instead of refused" % norm(c)[:50], f.loc(c))
     has(lambda b: _ne(b) and "equals" in norm(b.ast) and "'='" in norm(b.ast), "a forwarded-pair without '='", "pair-without-equals")
     has(lambda b: _ne(b) and {cmp_fact(b.ast)[1], cmp_fact(b.ast)[2]} == {"token.strip()", "token"}, "a padded token", "padded-token")
     has(lambda b: _ne(b) and {cmp_fact(b.ast)[1], cmp_fact(b.ast)[2]} == {"value.strip()", "value"}, "a padded value", "padded-value")
@@ -410,7 +434,14 @@ def rule_r6(ctx):
         ctx.r.violation(rid, key_of(f, None, "forwarded-no-reset"), "values of one Forwarded element leak into the next (no per-element reset)", f.loc())
 
 
-RULES = [rule_r1, rule_r2, rule_r3, rule_r4, rule_r5, rule_r6]
+def rule_r7(ctx):
+    """Shared with C20.R4: the configured trusted_proxy_headers are stored lower-cased (the parser looks the kinds up by
+    lower-case literals); unknown kinds and Forwarded together with X-Forwarded-* are refused."""
+    from . import c20
+    c20.rule_r4(ctx, rid="C16.R7")
+
+
+RULES = [rule_r1, rule_r2, rule_r3, rule_r4, rule_r5, rule_r6, rule_r7]
 
 from ..selftest import M, T, V  # noqa: E402
 
